@@ -115,7 +115,7 @@ def patterns(rng, d, n):
 
 
 def counts(d, tier):
-    cap = 1150 if tier == "quick" else 4200
+    cap = 1150 if tier == "quick" else 2300     # (4200 made the thorough tier hold ~45 M delivered entries in memory: 46 GB)
     c = {0, 1, 2, d - 1, d, d + 1, 2 * d - 1, 2 * d, 2 * d + 1, d * d - 1, d * d, d * d + 1, d * d + d, d * d + d + 1, 2 * d * d, 2 * d * d + 1,
          d ** 3 - 1, d ** 3, d ** 3 + 1, d ** 3 + d * d + d + 1, 2 * d ** 3 + 1, d ** 4 - 1, d ** 4, d ** 4 + 1, d ** 4 + d ** 3 + 1, d ** 5, d ** 5 + 1}
     return sorted(x for x in c if 0 <= x <= cap)
@@ -123,7 +123,7 @@ def counts(d, tier):
 
 def queries(rng, kind, d, keys, tier):
     q = []
-    nq = 14 if tier == "quick" else 40
+    nq = 14 if tier == "quick" else 22
     ts = [-10 ** 9, 10 ** 13]
     if keys:
         ts += [keys[0] - 1, keys[0], keys[-1], keys[-1] + 1]
